@@ -453,7 +453,18 @@ def discharge(F, sites, envs):
     # slice-window operations of the text parser itself, when the evaluation-based reader model (rmodel) has replayed the parser on
     # every input length of a dense range and every combination of abstract outcomes without any of them going out of range
     evaluated = None
+    wev = {}
     for s in sites:
+        # window operations and whole-part copies of the two serializers, when the evaluation-based writer model (wmodel) replayed
+        # them for every buffer length 0..N+1100, every variant and prefix mode without leaving a view or mismatching a copy length
+        if s.kind in ("index", "call") and s.what in ("index", "index_mut", "split_at", "split_at_mut", "copy_from_slice") and "hash::inner::FuzzyHash<" in s.body.path \
+                and s.body.path.endswith(("FuzzyHashType>::store_into_bytes", "FuzzyHashType>::store_into_str_bytes")):
+            which = "binary" if s.body.path.endswith("store_into_bytes") else "text"
+            if which not in wev:
+                wev[which] = layout._evaluated(F, which) is not None
+            if wev[which]:
+                s.idioms.add("in-range-by-evaluation-of-the-serializer")
+                continue
         if s.kind in ("index", "call") and s.what in ("index", "index_mut", "split_at", "split_at_mut") and s.body.path.endswith("FuzzyHashType>::from_str_bytes") \
                 and "hash::inner::FuzzyHash<" in s.body.path:
             if evaluated is None:
